@@ -400,7 +400,10 @@ impl Doc {
 
     #[cfg(feature = "autocomplete")]
     pub(crate) fn to_completion(&self) -> Option<String> {
-        let mut s = self.first_line()?.monochrome(false);
+        // a description occupies a single line: the first line of the message, never wrapped
+        let mut s = self
+            .first_line()?
+            .render_console(false, Color::Monochrome, usize::MAX);
         s.truncate(s.trim_end().len());
         Some(s)
     }
